@@ -63,26 +63,23 @@ multipart reader takes):
 * `attached_is_plain_model`, `after_means_next_request_from_rest_any_program`: the loop with per-request programs is the loop
   above for programs that keep the stream, and always goes on at exactly the `rest` of `resync`/`either`;
 * `form_parse_reads_prefix`, `form_parse_reads_prefix_fixed`: a form parse obtains a prefix of the body for ANY consumed amount;
-* `sync_after_any_consumption_partial` (chunked), `sync_after_any_consumption_fixed_partial`: after the handler returns the
-  connection is closed or the next request is parsed from exactly `rest`, provided the request still references the stream
-  the server built, or the stream was read to its reported end (fixed length: or the body lay within the prefetch);
+* `sync_after_any_consumption` (chunked), `sync_after_any_consumption_fixed`: after the handler returns the connection is
+  closed or the next request is parsed from exactly `rest`, for EVERY program, whatever the request references at the end;
   `sync_after_form_parse`, `body_all_reads_everything` (instances for the form APIs and `Body()`);
   `sync_after_any_consumption_on_connection`: the same on the event list of the connection (after the response: over, or
-  the events of exactly `rest`);
-* `detached_stream_is_drained_or_closed_fails_at`, `sync_after_any_consumption_fails_at`,
-  `stream_error_closes_fails_at_detached`: WITHOUT the proviso the statements are false of the code as it stands (known
-  finding `stream-detached-undrained`: `CloseBodyStream()/ResetBody()/SetBodyStream(wrapper)` before the end of the body, or
-  `Body()` on malformed framing, leave body bytes to be parsed as the next request); `detached_stream_is_drained_or_closed_partial`
-  is what the proposed repair (release the stream the server built) establishes.
+  the events of exactly `rest`); `detached_stream_is_drained_or_closed`.
+* HISTORY: the first versions needed the proviso "the request still references the stream the server built, or the stream
+  was read to its reported end"; without it the statements were false of the code (`CloseBodyStream()/ResetBody()/
+  SetBodyStream(wrapper)` before the end of the body, or `Body()` on malformed framing, left body bytes to be parsed as the
+  next request).  Repaired in `/repo` d6f45a0 (`Serve` releases the stream it built); the former counterexamples are the
+  regression theorems `detached_stream_is_drained_or_closed_repaired`, `sync_after_replaced_stream_repaired`,
+  `stream_error_closes_after_body_repaired`.
 
 TODO-OPEN:
-* `sync_after_any_consumption` / `detached_stream_is_drained_or_closed` at full strength are false of the current code (see
-  the `_fails_at` theorems); they become provable by replacing `streamBodyP` with `streamBody` once the repair is in /repo;
 * the amount `mime/multipart` takes from the stream as a function of chunking and bufio read-ahead is a parameter, not
   modelled; sequences of several API calls are covered only through their net effect on the stream (one `Prog`);
   a handler that keeps the stream and reads it in a goroutine after returning is not modelled;
-* the position of the connection after a FAILED read on a detached chunked stream (inside the refused framing line) is not
-  modelled exactly (the driver does not compare it, the spec predicate judges the implementation's output);
+
 * trailer lines that begin with a blank AND contain a colon (the look-ahead does not join them; they are
   scanned as a field whose name has a leading blank and rejected) and trailer sections with a
   repeated `0\r\n` line in front (hertz skips and counts it — see the example below —, the strict
@@ -532,43 +529,32 @@ theorem form_parse_reads_prefix_fixed (cfg : Cfg) (e : End) (hd : ReqHead) (upTo
   · exact Or.inl ha
   · exact Or.inr (Or.inl ha)
 
-/-- (2) for every consumption program on a well-formed chunked message (trailer section of field lines) followed by any
-`rest`: the connection is closed or the next request is parsed from exactly `rest` - PROVIDED the request still
-references the stream when the handler returns, or the stream was read to its reported end without a failed read.
-(`MultipartForm`, own reads, `none`: attached; `Body()`, `BodyWriteTo`, `PostArgs`: detached after reading to the end.)
-Without the proviso the statement is false of the code: `sync_after_any_consumption_fails_at`. -/
-theorem sync_after_any_consumption_partial (cfg : Cfg) (e : End) (hd : ReqHead) (p : Prog) (m : ChunkedMsg)
+/-- (2) for EVERY consumption program on a well-formed chunked message (trailer section of field lines) followed by any
+`rest`: the connection is closed or the next request is parsed from exactly `rest` — whatever the request references
+when the handler returns (`MultipartForm`, own reads, `none`: attached; `Body()`, `BodyWriteTo`, `PostArgs`,
+`CloseBodyStream()`, `ResetBody()`: detached; `SetBodyStream(other)`: replaced).  Full strength since `/repo` d6f45a0;
+the first version of this theorem needed the proviso "still attached, or read to the reported end without a failed
+read", and without it the statement was false of the code (`*_repaired` below are its former counterexamples). -/
+theorem sync_after_any_consumption (cfg : Cfg) (e : End) (hd : ReqHead) (p : Prog) (m : ChunkedMsg)
     (ls : List Bytes) (rest : Bytes) (r : ReqOut) (a : After) (hcl : hd.cl = -1) (hm : m.Wf)
     (hls : ∀ l ∈ ls, TrFieldOk l) (htr : m.trailer = encTrailer ls)
-    (h : streamBodyP cfg e hd (m.bytes ++ rest) p = .ok (r, a))
-    (hsafe : p.fin = .attached ∨ (r.got.eof = true ∧ r.got.err = false)) :
+    (h : streamBodyP cfg e hd (m.bytes ++ rest) p = .ok (r, a)) :
     After.InSync a rest := by
-  by_cases hf : p.fin = .attached
-  · rw [streamBodyP_attached _ _ _ _ _ hf] at h
-    have := chunked_resync_exact cfg e hd p.c m ls rest r a hcl hm hls htr h
-    rw [this]
-    unfold After.InSync
-    cases r.got.err <;> cases r.got.eof <;> simp
-  · rcases hsafe with hs | ⟨heof, herr⟩
-    · exact absurd hs hf
-    · rw [streamBodyP_chunked_detached _ _ _ _ _ hf hcl] at h
-      simp only [Except.ok.injEq, Prod.mk.injEq] at h
-      rw [← h.1] at heof herr
-      simp only at heof herr
-      rw [← h.2, eof_position cfg e hd.trailer p.c m hm ls hls htr rest _ herr heof]
-      exact Or.inr (Or.inl rfl)
+  rw [streamBodyP_eq] at h
+  have := chunked_resync_exact cfg e hd p.c m ls rest r a hcl hm hls htr h
+  rw [this]
+  unfold After.InSync
+  cases r.got.err <;> cases r.got.eof <;> simp
 
-/-- (2) on the connection: a kept-alive upload with a well-formed chunked body, any program satisfying the proviso, any
-`rest`: after the request's response the event list is over (closed), or continues with the events of exactly `rest`
-(`maybeClosed`: or is over) - no byte of the body, the terminator or the trailer is ever parsed as a request, and no byte
-of `rest` is lost. -/
+/-- (2) on the connection: a kept-alive upload with a well-formed chunked body, ANY program, any `rest`: after the
+request's response the event list is over (closed), or continues with the events of exactly `rest` (`maybeClosed`: or is
+over) - no byte of the body, the terminator or the trailer is ever parsed as a request, and no byte of `rest` is lost. -/
 theorem sync_after_any_consumption_on_connection (cfg : Cfg) (e : End) (prog : ReqHead → Bytes → Prog) (fuel : Nat)
     (first : Bool) (s : Bytes) (hd : ReqHead) (n : Nat) (m : ChunkedMsg) (ls : List Bytes) (rest : Bytes) (r : ReqOut) (a : After)
     (hgo : (!first && decide (s.length < 4)) = false) (hp : parseReqHead cfg.disableNorm s = .ok (hd, n))
     (hs : s.drop n = m.bytes ++ rest) (hcl : hd.cl = -1) (hm : m.Wf)
     (hls : ∀ l ∈ ls, TrFieldOk l) (htr : m.trailer = encTrailer ls)
     (hb : streamBodyP cfg e hd (s.drop n) (prog hd (s.drop n)) = .ok (r, a))
-    (hsafe : (prog hd (s.drop n)).fin = .attached ∨ (r.got.eof = true ∧ r.got.err = false))
     (hk : (cfg.disableKeepalive || r.head.connClose) = false) :
     ∃ tail, streamLoopP cfg e prog (fuel + 1) first s =
         (if mayContinue hd then [PEv.continue100] else []) ++
@@ -577,115 +563,79 @@ theorem sync_after_any_consumption_on_connection (cfg : Cfg) (e : End) (prog : R
   have hloop := streamLoopP_after cfg e prog fuel first s hd n r a hgo hp hb hk
   have hb' := hb
   rw [hs] at hb'
-  have hin := sync_after_any_consumption_partial cfg e hd _ m ls rest r a hcl hm hls htr hb' (by rw [← hs]; exact hsafe)
+  have hin := sync_after_any_consumption cfg e hd _ m ls rest r a hcl hm hls htr hb'
   rcases hin with ha | ha | ha <;> subst ha
   · exact ⟨[], hloop, Or.inl rfl⟩
   · exact ⟨_, hloop, Or.inr (Or.inl rfl)⟩
   · exact ⟨_, hloop, Or.inr (Or.inr rfl)⟩
 
-/-- every program of the alphabet that keeps the stream: in particular the form APIs for ANY consumed amount -/
+/-- in particular the form APIs for ANY consumed amount -/
 theorem sync_after_form_parse (cfg : Cfg) (e : End) (hd : ReqHead) (upTo n : Nat) (m : ChunkedMsg)
     (ls : List Bytes) (rest : Bytes) (r : ReqOut) (a : After) (hcl : hd.cl = -1) (hm : m.Wf)
     (hls : ∀ l ∈ ls, TrFieldOk l) (htr : m.trailer = encTrailer ls)
     (h : streamBodyP cfg e hd (m.bytes ++ rest) ((Api.formParse upTo).prog n) = .ok (r, a)) :
     After.InSync a rest :=
-  sync_after_any_consumption_partial cfg e hd _ m ls rest r a hcl hm hls htr h (Or.inl rfl)
+  sync_after_any_consumption cfg e hd _ m ls rest r a hcl hm hls htr h
 
 /-- `Body()` / `BodyWriteTo` / `PostArgs()` on a well-formed chunked message whose trailer the reader accepts: the
-caller gets exactly the de-chunked body, and although the stream is detached afterwards the connection stands exactly
-behind the message (everything was read). -/
+caller gets exactly the de-chunked body, and the connection stands exactly behind the message (everything was read). -/
 theorem body_all_reads_everything (cfg : Cfg) (e : End) (hd : ReqHead) (m : ChunkedMsg)
     (ls : List Bytes) (rest : Bytes) (r : ReqOut) (a : After) (hcl : hd.cl = -1) (hm : m.Wf)
     (hls : ∀ l ∈ ls, TrFieldOk l) (htr : m.trailer = encTrailer ls)
     (h : streamBodyP cfg e hd (m.bytes ++ rest) (Api.bodyAll.prog (m.bytes ++ rest).length) = .ok (r, a))
     (herr : r.got.err = false) :
     r.got.bytes = m.body ∧ r.got.eof = true ∧ a = .resync rest := by
-  have hne : (Api.bodyAll.prog (m.bytes ++ rest).length).fin ≠ .attached := by simp [Api.prog]
-  have h' := h
-  rw [streamBodyP_chunked_detached _ _ _ _ _ hne hcl] at h'
-  simp only [Except.ok.injEq, Prod.mk.injEq] at h'
+  rw [streamBodyP_eq] at h
   have hlen := body_length_le m rest
-  have hr := chunked_reads cfg e hd.trailer (Api.bodyAll.prog (m.bytes ++ rest).length).c m hm rest
-    ((Api.bodyAll.prog (m.bytes ++ rest).length).c.stopAfter + (m.bytes ++ rest).length + 2)
-  rw [← h'.1] at herr
-  simp only at herr
-  have h3 := hr.2.2 herr
+  have hpre := (chunked_reads_prefix cfg e hd _ m rest r a hcl hm h).2.2 herr
   have hstop : (Api.bodyAll.prog (m.bytes ++ rest).length).c.stopAfter = (m.bytes ++ rest).length + 1 := rfl
-  have heof := h3.2.mpr (by rw [hstop]; omega)
-  refine ⟨?_, ?_, ?_⟩
-  · rw [← h'.1]; simp only
-    rw [h3.1, hstop, List.take_of_length_le (by omega)]
-  · rw [← h'.1]; exact heof
-  · rw [← h'.2, eof_position cfg e hd.trailer _ m hm ls hls htr rest _ herr heof]
+  have heof : r.got.eof = true := hpre.2.mpr (by rw [hstop]; omega)
+  refine ⟨?_, heof, ?_⟩
+  · rw [hpre.1, hstop, List.take_of_length_le (by omega)]
+  · rw [chunked_resync_exact cfg e hd _ m ls rest r a hcl hm hls htr h, herr, heof]
+    simp
 
-/-- (2) fixed length, every program: closed or exactly behind the `Content-Length` bytes - PROVIDED the request still
-references the stream, or the body was within the prefetch (`min(length, limit, 8 KiB)` bytes are taken from the
-connection before the handler runs), or the handler obtained all of it. -/
-theorem sync_after_any_consumption_fixed_partial (cfg : Cfg) (e : End) (hd : ReqHead) (s : Bytes) (p : Prog)
+/-- (2) fixed length, EVERY program: closed or exactly behind the `Content-Length` bytes (no proviso since d6f45a0). -/
+theorem sync_after_any_consumption_fixed (cfg : Cfg) (e : End) (hd : ReqHead) (s : Bytes) (p : Prog)
     (r : ReqOut) (a : After) (hcl : 0 ≤ hd.cl)
-    (h : streamBodyP cfg e hd s p = .ok (r, a))
-    (hsafe : p.fin = .attached ∨ hd.cl.toNat ≤ prefetchLen cfg hd.cl.toNat ∨ r.got.bytes.length = hd.cl.toNat) :
+    (h : streamBodyP cfg e hd s p = .ok (r, a)) :
     After.InSync a (s.drop hd.cl.toNat) := by
-  by_cases hf : p.fin = .attached
-  · rw [streamBodyP_attached _ _ _ _ _ hf] at h
-    rcases fixed_after cfg e hd s _ r a hcl h with ha | ha
-    · exact Or.inl ha
-    · exact Or.inr (Or.inl ha)
-  · have h2 : ¬ hd.cl = -2 := by omega
-    have h1 : ¬ hd.cl = -1 := by omega
-    simp only [streamBodyP, hf, h2, h1, if_false] at h
-    cases hb : streamBody cfg e hd s p.c with
-    | error x => simp [hb] at h
-    | ok v =>
-      obtain ⟨r', a'⟩ := v
-      simp only [hb, Except.ok.injEq, Prod.mk.injEq] at h
-      have hpre := fixed_reads_prefix cfg e hd s p.c r' a' hcl hb
-      have hk : r'.got.bytes.length ≤ hd.cl.toNat := by
-        have := hpre.1.length_le
-        simp only [List.length_take] at this
-        omega
-      have hp : prefetchLen cfg hd.cl.toNat ≤ hd.cl.toNat := by unfold prefetchLen; omega
-      have hmax : max (prefetchLen cfg hd.cl.toNat) r'.got.bytes.length = hd.cl.toNat := by
-        rcases hsafe with hs | hs | hs
-        · exact absurd hs hf
-        · omega
-        · rw [← h.1] at hs; omega
-      rw [← h.2, hmax]
-      exact Or.inr (Or.inl rfl)
+  rw [streamBodyP_eq] at h
+  rcases fixed_after cfg e hd s _ r a hcl h with ha | ha
+  · exact Or.inl ha
+  · exact Or.inr (Or.inl ha)
 
-/-- `sync_after_any_consumption` and `detached_stream_is_drained_or_closed` as asked for are FALSE of the code as it
-stands (known finding `stream-detached-undrained`, replayed against the real server by the check): the example message
-`3 abc / 02 de / 0` followed by `GET`, handler calls `c.Request.CloseBodyStream()` (or `ResetBody()`): the loop's
-`IsBodyStream()` test skips the drain and the next request is parsed from the first byte of the BODY. -/
-theorem detached_stream_is_drained_or_closed_fails_at :
+/-- regression (former `detached_stream_is_drained_or_closed_fails_at`, finding `stream-detached-undrained`, repaired in
+`/repo` d6f45a0): the example message `3 abc / 02 de / 0` followed by `GET`, handler calls `c.Request.CloseBodyStream()`
+(or `ResetBody()`): the stream the server built is drained all the same and the connection stands at `GET` (or is
+closed).  Before the repair the loop's `IsBodyStream()` test skipped the drain and the next request was parsed from the
+first byte of the BODY. -/
+theorem detached_stream_is_drained_or_closed_repaired :
     ∃ a, (streamBodyP {} .eof { cl := -1 } ((msgOf [13, 10]).bytes ++ [71, 69, 84]) (Api.closeStream.prog 25)).toOption.map (·.2) = some a ∧
-      ¬ After.InSync a [71, 69, 84] :=
-  ⟨.resync [51, 13, 10, 97, 98, 99, 13, 10, 48, 50, 32, 13, 10, 100, 101, 13, 10, 48, 13, 10, 13, 10, 71, 69, 84], by decide +kernel,
-   by intro h; rcases h with h | h | h <;> simp at h⟩
+      After.InSync a [71, 69, 84] :=
+  ⟨.either [71, 69, 84], by decide +kernel, Or.inr (Or.inr rfl)⟩
 
-/-- the same through a wrapper put in place of the stream (`SetBodyStream`), after reading 4 of the 5 body bytes: the
-next request is parsed from `e\r\n0\r\n\r\nGET`. -/
-theorem sync_after_any_consumption_fails_at :
+/-- regression: the same through a wrapper put in place of the stream (`SetBodyStream`), after reading 4 of the 5 body
+bytes (before the repair the next request was parsed from `e\r\n0\r\n\r\nGET`). -/
+theorem sync_after_replaced_stream_repaired :
     ∃ a, (streamBodyP {} .eof { cl := -1 } ((msgOf [13, 10]).bytes ++ [71, 69, 84]) ((Api.replaceStream 3 4).prog 25)).toOption.map (·.2) = some a ∧
-      ¬ After.InSync a [71, 69, 84] :=
-  ⟨.resync [101, 13, 10, 48, 13, 10, 13, 10, 71, 69, 84], by decide +kernel,
-   by intro h; rcases h with h | h | h <;> simp at h⟩
+      After.InSync a [71, 69, 84] :=
+  ⟨.either [71, 69, 84], by decide +kernel, Or.inr (Or.inr rfl)⟩
 
-/-- `stream_error_closes` does not survive `Body()`: a refused chunk-size line (`zz`) makes the read fail, `Body()`
-drops the error and detaches the stream, and the connection is NOT closed (same known finding). -/
-theorem stream_error_closes_fails_at_detached :
+/-- regression: `stream_error_closes` survives `Body()`: a refused chunk-size line (`zz`) makes the read fail, `Body()`
+drops the error and detaches the stream, and the connection IS closed (the server's stream remembers the error). -/
+theorem stream_error_closes_after_body_repaired :
     (streamBodyP {} .eof { cl := -1 } [49, 13, 10, 97, 13, 10, 122, 122, 13, 10, 13, 10, 71, 69, 84] (Api.bodyAll.prog 15)).toOption.map
-      (fun p => (p.1.got.err, decide (p.2 = .closed))) = some (true, false) := by decide +kernel
+      (fun p => (p.1.got.err, decide (p.2 = .closed))) = some (true, true) := by decide +kernel
 
-/-- what the repair has to establish (`patches/C14-release-stream-built-by-server.diff`): releasing the stream the
-server built, whatever the request references, is the attached behaviour - for every program the reads are the same and
-the connection is in sync. -/
-theorem detached_stream_is_drained_or_closed_partial (cfg : Cfg) (e : End) (hd : ReqHead) (p : Prog) (m : ChunkedMsg)
+/-- **detached or replaced streams are drained or the connection is closed**: for every program and every `Fin` the
+reads are the same as for the attached program and the connection is in sync. -/
+theorem detached_stream_is_drained_or_closed (cfg : Cfg) (e : End) (hd : ReqHead) (p : Prog) (m : ChunkedMsg)
     (ls : List Bytes) (rest : Bytes) (r : ReqOut) (a : After) (hcl : hd.cl = -1) (hm : m.Wf)
-    (hls : ∀ l ∈ ls, TrFieldOk l) (htr : m.trailer = encTrailer ls)
-    (h : streamBodyP cfg e hd (m.bytes ++ rest) { p with fin := .attached } = .ok (r, a)) :
-    After.InSync a rest :=
-  sync_after_any_consumption_partial cfg e hd _ m ls rest r a hcl hm hls htr h (Or.inl rfl)
+    (hls : ∀ l ∈ ls, TrFieldOk l) (htr : m.trailer = encTrailer ls) (fin : Fin)
+    (h : streamBodyP cfg e hd (m.bytes ++ rest) { p with fin := fin } = .ok (r, a)) :
+    After.InSync a rest ∧ streamBodyP cfg e hd (m.bytes ++ rest) { p with fin := .attached } = .ok (r, a) :=
+  ⟨sync_after_any_consumption cfg e hd _ m ls rest r a hcl hm hls htr h, h⟩
 
 /-- non-vacuity of `sync_after_form_parse` / `form_parse_reads_prefix`: the multipart reader takes 4 bytes (inside the
 second chunk); drained to exactly `GET`. -/
@@ -699,13 +649,13 @@ example : (streamBodyP {} .eof { cl := -1 } ((msgOf (encTrailer [[88, 58, 49]]))
       (fun p => (p.1.got.bytes, p.1.got.eof, p.1.got.err, p.2)) =
     some ([97, 98, 99, 100, 101], true, false, .resync [71, 69, 84]) := by decide +kernel
 
-/-- non-vacuity of `sync_after_any_consumption_fixed_partial`, third proviso: Content-Length 5, `Body()`, detached. -/
+/-- non-vacuity of `sync_after_any_consumption_fixed`: Content-Length 5, `Body()`, detached. -/
 example : (streamBodyP {} .eof { cl := 5, method := [80] } [1, 2, 3, 4, 5, 71, 69, 84] (Api.bodyAll.prog 8)).toOption.map
     (fun p => (p.1.got.bytes, p.2)) = some ([1, 2, 3, 4, 5], .resync [71, 69, 84]) := by decide +kernel
 
-/-- the whole connection, model on the CURRENT behaviour: upload `/c` (chunked `abc`,`de`, trailer `X:1`) + pipelined
-`GET /probe`.  With `MultipartForm`-style consumption (any amount, here 4 bytes) the probe is served; with
-`CloseBodyStream()` the body bytes are parsed as a request: 400, connection closed, probe lost. -/
+/-- the whole connection: upload `/c` (chunked `abc`,`de`, trailer `X:1`) + pipelined `GET /probe`.  With
+`MultipartForm`-style consumption (any amount, here 4 bytes) the probe is served; with `CloseBodyStream()` too (second
+example; before d6f45a0 the body bytes were parsed as a request: 400, connection closed, probe lost). -/
 example : ((serveStreamP {} .eof (fun _ _ => (Api.formParse 4).prog 0)
     [80, 79, 83, 84, 32, 47, 99, 32, 72, 84, 84, 80, 47, 49, 46, 49, 13, 10, 72, 111, 115, 116, 58, 32,
     104, 13, 10, 84, 114, 97, 110, 115, 102, 101, 114, 45, 69, 110, 99, 111, 100, 105, 110, 103, 58, 32,
@@ -724,6 +674,6 @@ example : ((serveStreamP {} .eof (fun hd _ => if hd.uri = [47, 99] then Api.clos
     101, 32, 72, 84, 84, 80, 47, 49, 46, 49, 13, 10, 72, 111, 115, 116, 58, 32, 112, 13, 10, 13, 10]).map
     (fun ev => match ev with
       | .continue100 => (0, []) | .req r _ => (1, r.head.uri) | .resp st _ => (st, []) | .maybeClosed => (3, []))) =
-    [(1, [47, 99]), (200, []), (400, [])] := by decide +kernel
+    [(1, [47, 99]), (200, []), (3, []), (1, [47, 112, 114, 111, 98, 101]), (200, [])] := by decide +kernel
 
 end Hertz.Props.C14
